@@ -199,7 +199,7 @@ NO_TUPLE = {'series_assign', 'frame_assign', 'concat_resolved', 'from_records', 
 NO_NAN_LABEL = {'indexgo_append'}
 
 
-def mk_site(site, arr_name, tier='quick', bigint_only=False):
+def mk_site(site, arr_name, tier='quick', bigint_only=False, bool_only=False):
     cells, dt = ARRAYS[arr_name]
 
     def body(env, kind, v, b):
@@ -221,12 +221,17 @@ def mk_site(site, arr_name, tier='quick', bigint_only=False):
         ref_cells = [env.obs(c) for c in cells]
         return got, ref_fn(ref_cells, ref_elem)
     f6 = arr_name == 'float64' or site == 'fillna'
+    f19 = site == 'from_records' and arr_name in ('int64', 'float64')   # bool mixed with numbers in one iterable: finding F19
     pre = []
     if f6 and not bigint_only:
-        pre = ['kind != 2']
+        pre.append('kind != 2')
+    if f19 and not bool_only:
+        pre.append('kind != 0')
     if bigint_only:
         pre = ['kind == 2']
-    return Cond(f'site_{site}_{arr_name}' + ('_bigint' if bigint_only else ''), [('kind', 'int'), ('v', 'int'), ('b', 'bool')], body, pre=pre,
+    if bool_only:
+        pre = ['kind == 0']
+    return Cond(f'site_{site}_{arr_name}' + ('_bigint' if bigint_only else '') + ('_bool' if bool_only else ''), [('kind', 'int'), ('v', 'int'), ('b', 'bool')], body, pre=pre,
             ranges={'kind': (0, len(ELEM_KINDS) - 1), 'v': (-(2 ** 53), 2 ** 53)},
             functions=[],
             bounds=f'existing array dtype {dt} ({cells}); supplied element kind symbolic over {ELEM_KINDS} (int value symbolic within +-2**53, big int = 2**60+1, str = "wxyz" longer than the array width)',
@@ -241,6 +246,7 @@ for _s, _a in QUICK_SITES:
     _add(mk_site(_s, _a))
 _add(mk_site('shift', 'float64', bigint_only=True))
 _add(mk_site('fillna', 'int64', bigint_only=True))
+_add(mk_site('from_records', 'int64', bool_only=True))
 for _s in SITES:
     for _a in ARRAYS:
         c = mk_site(_s, _a, tier='thorough')
